@@ -82,3 +82,18 @@ package statistics
 //@     invariant range: rangeindex >= -1 && rangeindex < len(workReport.Results)
 //@     invariant first: (rangeindex == -1 ==> output.Imports == 0 && output.ExtrinsicCount == 0 && output.ExtrinsicSize == 0 && output.Exports == 0 && output.GasUsed == 0) && (rangeindex == 0 ==> output.Imports == workReport.Results[0].RefineLoad.Imports && output.ExtrinsicCount == workReport.Results[0].RefineLoad.ExtrinsicCount && output.ExtrinsicSize == workReport.Results[0].RefineLoad.ExtrinsicSize && output.Exports == workReport.Results[0].RefineLoad.Exports && output.GasUsed == workReport.Results[0].RefineLoad.GasUsed)
 //@     invariant frame: frame_only()
+
+// GP (13.8) p: the number of assurers that set the core's bit (the decoded bitfield holds one octet, 0 or 1, per core)
+//@ func CalculatePopularity
+//@   props C34
+//@   requires idx: forall(k, 0, len(assurancesExtrinsic), int(coreIndex) < len(assurancesExtrinsic[k].Bitfield))
+//@   ensures none: len(assurancesExtrinsic) == 0 ==> result == 0
+//@   ensures one: len(assurancesExtrinsic) == 1 ==> result == uint16(assurancesExtrinsic[0].Bitfield[int(coreIndex)])
+//@   ensures bound: len(assurancesExtrinsic) <= 1023 && forall(k, 0, len(assurancesExtrinsic), assurancesExtrinsic[k].Bitfield[int(coreIndex)] <= 1) ==> int(result) <= len(assurancesExtrinsic)
+//@   ensures zero: len(assurancesExtrinsic) <= 1023 && forall(k, 0, len(assurancesExtrinsic), assurancesExtrinsic[k].Bitfield[int(coreIndex)] == 0) ==> result == 0
+//@   loop rangeindex#0
+//@     invariant range: rangeindex >= -1 && rangeindex < len(assurancesExtrinsic)
+//@     invariant first: (rangeindex == -1 ==> output == 0) && (rangeindex == 0 ==> output == uint16(assurancesExtrinsic[0].Bitfield[int(coreIndex)]))
+//@     invariant bound: len(assurancesExtrinsic) <= 1023 && forall(k, 0, len(assurancesExtrinsic), assurancesExtrinsic[k].Bitfield[int(coreIndex)] <= 1) ==> int(output) <= rangeindex + 1
+//@     invariant zero: len(assurancesExtrinsic) <= 1023 && forall(k, 0, len(assurancesExtrinsic), assurancesExtrinsic[k].Bitfield[int(coreIndex)] == 0) ==> output == 0
+//@     invariant frame: frame_only()
